@@ -259,6 +259,20 @@ fn load_spans(tag: &str, r: &Result<digital_test_runner::TestCase, LoadTestError
     }
 }
 
+/// C09: "… so the error can always be rendered as a diagnostic" — every label of a parse error returned by `load_test`
+/// must be readable in the source text that is attached to that very error
+fn load_render_problem(tag: &str, r: &Result<digital_test_runner::TestCase, LoadTestError>) -> Option<String> {
+    use miette::Diagnostic;
+    let Err(LoadTestError::ParseError(e)) = r else { return None };
+    let sc = e.source_code()?;
+    for l in e.labels()? {
+        if sc.read_span(l.inner(), 0, 0).is_err() {
+            return Some(format!("# render {tag} the location {}..{} cannot be read in the source attached to the error", l.offset(), l.offset() + l.len()));
+        }
+    }
+    None
+}
+
 fn load_line(tag: &str, r: Result<digital_test_runner::TestCase, LoadTestError>) -> String {
     match r {
         Ok(tc) => format!("{tag} ok signals={} {}", imp::dump_signals(&tc.signals), verif_hooks::dump_test_case(&tc)),
@@ -283,6 +297,9 @@ pub fn run_imp(xml: &str, names: &[String]) -> Vec<String> {
         match catch_unwind(AssertUnwindSafe(|| f.load_test(i))) {
             Ok(r) => {
                 if let Some(l) = load_spans(&format!("load {i}"), &r) {
+                    out.push(l);
+                }
+                if let Some(l) = load_render_problem(&format!("load {i}"), &r) {
                     out.push(l);
                 }
                 out.push(load_line(&format!("load {i}"), r))
@@ -406,6 +423,10 @@ pub fn gen_circuit(r: &mut Prng) -> Circuit {
         } else if r.chance(1, 10) {
             // cut off inside a block or a statement, without a final newline
             src.push_str(*r.pick(&["loop(i,2)", "while(1)\n", "let a = 1", "let é = ", "loop(i,2)\nend"]));
+        }
+        if r.chance(1, 4) {
+            // blank space at the very end of the text (the end-of-input location of an error lies behind it)
+            src.push_str(*r.pick(&["\n\n", "  ", " \n", "\t\t\n", "\n \n\n"]));
         }
         if r.chance(1, 20) {
             src = String::new();
@@ -573,6 +594,9 @@ pub fn suite_dig(ctx: &mut Ctx, suite: &str, n: u64) {
                                 },
                             }
                         };
+                        if let Some(l) = il_all.iter().find(|l| l.starts_with("# render ")) {
+                            push(ctx, "oracle", suite, cs, format!("a parse error of load_test cannot be rendered: {l}"), &xml, &il, &m);
+                        }
                         for (i, (_, src)) in tests.iter().enumerate() {
                             // a parse error of load_test points into the test's own source text (C09), and is the
                             // error parsing that text gives
